@@ -81,8 +81,12 @@ def classify(info, event_line, what):
     # site = the method family (they share one encoding): MS, PR (PR_original), MS_2, PR_2
     site = (method if ev[0] in ("t", "o", "s") else "MS") + ("_2" if form2 else "")
     tags = [ob, "entry_" + entry, "kind_" + info.get("kind", "?"), "form" + info.get("form", "?")]
-    if ob == "verdict_false_but_ranking_exists" and form2 and method == "PR" and info.get("guard_entailed") == "0":
-        # the x-constraints implied by pset_after are not implied by pset_before
+    if (ob == "verdict_false_but_ranking_exists" and form2 and method == "PR"
+            and info.get("guard_entailed") == "0" and info.get("pr_model") == "0"):
+        # KF-C18-1: (i) the x-constraints implied by pset_after are NOT implied by pset_before (exact: K1 subsetB on
+        # the Fourier-Motzkin projection of `after` onto x), and (ii) the proved-sound model of the unchanged
+        # fill_constraint_system_PR encoding is itself infeasible on this pair (verified Motzkin certificate), i.e. the
+        # false verdict is the documented incompleteness of the encoding and not some other deviation of the code.
         tags.append("pr2_before_does_not_entail_guard_of_after")
     if info.get("empty") == "1":
         tags.append("empty_relation")
